@@ -40,6 +40,8 @@ META = {
             "case is a distinct (assignment of non-default values, previous file text, path) triple",
     "assumptions": [
         "an int option holding a bool is accepted as typed (Python: bool is an int); not reported",
+        "the active (following) listener's rule is idempotent and holds in every reachable state, so it does not react to "
+        "the re-announcement of a restored state; its reaction to an accepted update is part of the expected state",
         "a listener never rejects the default / the restored state itself, except in the reject-always configuration, where "
         "reset() and add_option() are only judged for typing and effect (they are not `updates` and have no rollback)",
         "whether the rejecting call raises, and what, is not asserted (the statement speaks of values and of what listeners observe)",
@@ -58,6 +60,19 @@ def make_opts():
     o = optmanager.OptManager()
     for name in ["b", "s", "i", "os", "oi", "q"]:
         o.add_option(name, TYPESPEC[name], DEFAULTS[name] if name != "q" else [], "help for " + name)
+    return o
+
+
+# the config round trip uses a wider table: every option type once with a falsy / None default (above) and once with a
+# default that is neither, so that "non-default" also means False, 0, None, "" and [] (written as false, 0, null, '', [])
+RT_EXTRA = {"bt": (bool, True), "ip": (int, 8080), "ods": (Optional[str], "u"), "odi": (Optional[int], 7), "qd": (Sequence[str], ["a"])}
+TYPENAME.update({"bt": "bool", "ip": "int", "ods": "optional str", "odi": "optional int", "qd": "sequence of str"})
+
+
+def make_rt_opts():
+    o = make_opts()
+    for name, (ts, default) in RT_EXTRA.items():
+        o.add_option(name, ts, list(default) if isinstance(default, list) else default, "help for " + name)
     return o
 
 
@@ -112,7 +127,20 @@ LCONFIGS = {
     "sub-rejecter-last": [["sub", ALL, ["accept"]], ["sub", ["i", "s"], ["reject_if", "i", 2]], ["con", ["accept"]]],
     "con-rejecter": [["sub", ALL, ["accept"]], ["con", ["accept"]], ["con", ["reject_if", "s", "x"]], ["con", ["accept"]]],
     "reject-always": [["sub", ALL, ["accept"]], ["con", ["accept"]], ["con", ["reject_always"]]],
+    # an *active* listener (like the intercept addon, which sets intercept_active when intercept changes): it reacts to an
+    # update of s or b by assigning further options; real notification order is subscribers first, then connected receivers
+    "follower-con-rejecter": [["con", ["follow"]], ["sub", ALL, ["accept"]], ["con", ["reject_if", "s", "x"]], ["con", ["accept"]]],
+    "follower-sub-rejecter": [["sub", ["s", "b"], ["follow"]], ["sub", ["i", "s"], ["reject_if", "i", 2]], ["con", ["accept"]]],
 }
+
+# the follower's rule: whenever s or b was updated and s is not at its default, b must be on (and oi is set along with it).
+# The rule is idempotent and holds in every reachable state, so re-announcing a restored state never triggers it.
+FOLLOW_TRIGGER = {"s", "b"}
+FOLLOW_ASSIGN = {"b": True, "oi": 1}
+
+
+def follow_wants(snap, updated):
+    return bool(set(updated) & FOLLOW_TRIGGER) and not same(snap["s"], "d") and snap["b"] is not True
 
 
 def policy_rejects(policy, snap):
@@ -139,6 +167,8 @@ class Listener:
         self.seen.append((sorted(updated), snap))
         if policy_rejects(self.policy, snap):
             raise exceptions.OptionsError("listener rejects this state")
+        if self.policy[0] == "follow" and follow_wants(snap, updated):
+            self.opts.update(**FOLLOW_ASSIGN)  # nested update; an OptionsError from it propagates like a rejection
 
 
 class Sys:
@@ -156,12 +186,19 @@ class Sys:
             self.listeners.append(li)
         self.judged = []  # (clause, ok, features, expected, observed)
         self.last = None
+        self.reacted = []
 
     def would_notify(self, names):
         return [li for li in self.listeners if li.kind == "con" or set(li.names) & set(names)]
 
     def listener_rejects(self, would, names):
         return any(policy_rejects(li.policy, would) for li in self.would_notify(names))
+
+    def react(self, would, names):
+        """reference for the active listener: (state after its reaction, names it assigns)"""
+        if any(li.policy[0] == "follow" for li in self.would_notify(names)) and follow_wants(would, names):
+            return dict(would, **FOLLOW_ASSIGN), sorted(FOLLOW_ASSIGN)
+        return would, []
 
 
 # ---------------------------------------------------------------------------
@@ -292,7 +329,9 @@ def expect_update(sys_, pre, pairs, allow_unknown):
     names = sorted({k for k, _ in known})
     if any(not type_ok(k, v) for k, v in known):
         return "rejected", "type-error", would, names
-    if names and sys_.listener_rejects(would, names):
+    if names:
+        would, sys_.reacted = sys_.react(would, names)
+    if names and (sys_.listener_rejects(would, names) or (sys_.reacted and sys_.listener_rejects(would, sys_.reacted))):
         return "rejected", "listener", would, names
     if unknown and not allow_unknown:
         return "rejected", "unknown-name", would, names
@@ -304,6 +343,7 @@ def do_apply(sys_, a):
     pre = snapshot(opts)
     for li in sys_.listeners:
         li.seen = []
+    sys_.reacted = []
     op = a[0]
     opname = op
     verdict, rkind, would, names = "accepted", "none", dict(pre), []
@@ -382,16 +422,18 @@ def do_apply(sys_, a):
         if names and op not in ("reset", "add_late") and ok_eff:
             problems = {}
             expected = sys_.would_notify(names)
+            nested = sys_.reacted  # names assigned by the active listener in reaction (its own, nested, update)
+            also = sys_.would_notify(nested) if nested else []
             for i, li in enumerate(sys_.listeners):
                 s = li.seen
                 if li in expected:
-                    if not s:
-                        problems[i] = "not notified"
-                    elif any(u != names for u, _ in s):
+                    if not any(u == names for u, _ in s):
+                        problems[i] = "not notified with the assigned names"
+                    elif any(u != names and u != nested for u, _ in s):
                         problems[i] = ["updated", [u for u, _ in s]]
                     elif _r(s[-1][1]) != _r(would):
                         problems[i] = ["last saw", _r(s[-1][1])]
-                elif s:
+                elif s and not (li in also and all(u == nested for u, _ in s)):
                     problems[i] = ["notified although not subscribed", [u for u, _ in s]]
             J.append(("accepted_update_notifies_assigned_names", not problems, feats, names, problems))
     sys_.last = [opname, verdict, rkind, exc]
@@ -449,7 +491,7 @@ INTS = [-1, 1, 8080, 2 ** 31, 2 ** 63, 10 ** 30]
 
 PREV_TEXTS = {
     "empty": "",
-    "older-file": "# mitmproxy config\ns: old value\nnosuch: 1\nq: [x, 'y']\nos: ~\ni: 7\n",
+    "older-file": "# mitmproxy config\ns: old value\nnosuch: 1\nq: [x, 'y']\nos: ~\ni: 7\nods: old\nodi: 3\nqd: [z]\n",
 }
 
 
@@ -519,6 +561,13 @@ def rt_cases(tier):
         singles.append([["oi", n]])
     singles.append([["b", True]])
     singles.append([["q", ["a", "a", "b"]]])
+    # options whose default is not falsy, set to every falsy value of their type (and a few others)
+    for name, vals in (("bt", [False]), ("ip", [0, -1]), ("ods", [None, "", "null", "~", "None"]), ("odi", [None, 0, -1]),
+                       ("qd", [[], [""], ["null"], ("a", "a")])):
+        for v in vals:
+            singles.append([[name, v]])
+    singles.append([["ods", None], ["odi", None], ["qd", []], ["bt", False], ["ip", 0]])
+    singles.append([["ods", None], ["os", "None"], ["oi", 0], ["odi", None], ["s", "~"]])
     cases = []
     for s in singles:
         for prev in PREV_TEXTS:
@@ -530,6 +579,9 @@ def rt_cases(tier):
         cases.append([[["q", [a, b]]], "empty", "stringio"])
         if a != "d":
             cases.append([[["s", a], ["os", b], ["b", True], ["i", 5]], "older-file", "stringio"])
+    for h in HOSTILE:
+        if h != "u":
+            cases.append([[["ods", h], ["odi", None]], "older-file", "stringio"])
     if tier == "thorough":
         small = HOSTILE[::4] + ["\u0085"]
         for c in itertools.product(small, repeat=3):
@@ -542,15 +594,16 @@ def rt_one(case, t: Tally):
     assign = [(k, dec(v)) for k, v in assign]
     names = sorted({k for k, _ in assign})
     feats = {"op": "roundtrip", "opt_type": TYPENAME[names[0]] if len(names) == 1 else "several",
-             "value_class": vclass(assign), "path": pathkind}
+             "value_class": vclass(assign), "path": pathkind,
+             "default_kind": "non-falsy" if any(k in RT_EXTRA for k in names) else "falsy"}
     jcase = {"roundtrip": [[k, enc(v)] for k, v in assign], "prev": prevname, "path": pathkind}
-    src = make_opts()
+    src = make_rt_opts()
     src.update(**dict(assign))  # harness step: these are valid typed values; an exception here is a checker bug
     want = {k: getattr(src, k) for k in src.keys() if src.has_changed(k)}
     got = None
     text = None
     try:
-        dst = make_opts()
+        dst = make_rt_opts()
         if pathkind == "stringio":
             f = io.StringIO()
             optmanager.serialize(src, f, PREV_TEXTS[prevname])
